@@ -3,6 +3,8 @@ use super::*;
 use crate::kani_support::*;
 
 pub(crate) fn len_of(f: &CombFilter) -> usize { f.buffer.len() }
+pub(crate) fn set_current(f: &mut CombFilter, v: f32) { let i = f.current_index; f.buffer[i] = v; }
+pub(crate) fn state_is_zero(f: &CombFilter) -> bool { f.filter_store == 0.0 && f.buffer[f.current_index] == 0.0 }
 
 // @ob id=C14.7a,C13.7a strength=bounded tier=quick bound="buffer of 2 cells; cell contents, filter store and input on the dyadic grid k/8; damping in {0, 1/2}, feedback in {1/2, 1}" fn=effect/reverb/comb.rs::CombFilter::process
 // @req any grid state
